@@ -224,7 +224,13 @@ def io_thread_func(blockshape, store_headers, headers_dict, geom, plane_set_id, 
                     seismicfile.iline[seismicfile.ilines[geom.ilines[0] + plane_set_id * blockshape[0] + i]]
                 )[geom.xlines[0]:geom.xlines[-1]+1, :]
                 if store_headers:
-                    headers = seismicfile.header[start_trace: start_trace + len(geom.xlines)]
+                    if getattr(seismicfile, 'sorting', None) == segyio.TraceSortingFormat.CROSSLINE_SORTING:
+                        # Traces of one inline are len(ilines) apart in a crossline-sorted file
+                        n_il, il_id = len(seismicfile.ilines), start_trace // len(seismicfile.xlines)
+                        headers = seismicfile.header[il_id + geom.xlines[0] * n_il:
+                                                     il_id + geom.xlines[-1] * n_il + 1: n_il]
+                    else:
+                        headers = seismicfile.header[start_trace: start_trace + len(geom.xlines)]
 
             if store_headers:
                 for t, header in enumerate(headers, start_trace):
